@@ -217,6 +217,7 @@ fn explore(cx: &mut Ctx, rng: &mut Rng) {
         extreme_depth_cases(&mut sink);
         meta_mutator_cases(&sweep.eps, thorough, &mut sink);
         deferred_capture_cases(&mut sink);
+        misplaced_construct_cases(thorough, &mut sink);
     }
     if let Some(f) = &only {
         cases.retain(|c| c.apis.iter().any(|a| a.contains(f.as_str())));
@@ -249,6 +250,7 @@ fn explore(cx: &mut Ctx, rng: &mut Rng) {
         extreme_depth_cases(&mut sink);
         meta_mutator_cases(&sweep.eps, thorough, &mut sink);
         deferred_capture_cases(&mut sink);
+        misplaced_construct_cases(thorough, &mut sink);
     }
     let cases = std::mem::take(&mut b.buf);
     eprintln!("[c06] control-flow / register-pressure / iterator-reentrancy cases: {}", cases.len());
@@ -430,6 +432,10 @@ fn replay_known(cx: &mut Ctx) {
     for src in ["m =\n  @+: |other| self + other\nm + 1\n", "f = |n| (n,).each(|x| f(x + 1)).consume()\nf 0\n", "f = |n| [n].transform(|x| f(x + 1))\nf 0\n", "o =\n  @display: || '{self}'\n'{o}'\n"] {
         hang_probe_cases.push(Case { kind: 'R', text: src.to_string(), group: "excluded-recursion-probe", apis: vec!["excluded:script-recursion".into()] });
     }
+    // the script's own gigantic allocation request (stated exclusion), listed explicitly
+    for src in ["(1..10).windows(9223372036854775807).next()\n", "(1..10).chunks(9223372036854775807).next()\n"] {
+        hang_probe_cases.push(Case { kind: 'R', text: src.to_string(), group: "excluded-allocation-probe", apis: vec!["excluded:allocation-request".into()] });
+    }
     let outs = cx.pool.run_opts(&hang_probe_cases, Duration::from_millis(4000), false);
     for (c, o) in hang_probe_cases.iter().zip(outs.iter()) {
         cx.rep.case(&c.text, true);
@@ -438,6 +444,19 @@ fn replay_known(cx: &mut Ctx) {
             Outcome::Died(_) => "died",
             Outcome::Json(_) => "returns",
         };
+        if c.group == "excluded-allocation-probe" {
+            let cls = match o {
+                Outcome::Hang => "hang".to_string(),
+                Outcome::Died(d) => format!("process death ({})", classify_death(d)),
+                Outcome::Json(v) => match v["p"].as_array().and_then(|a| a.first()) {
+                    Some(p) => format!("panic {:?}", p["msg"].as_str().unwrap_or("")),
+                    None => format!("returns {}", v["o"].as_str().unwrap_or("?")),
+                },
+            };
+            cx.rep.bump("excluded-allocation-probe");
+            cx.rep.note(format!("excluded by the property (allocation of a size the script asked for): {:?} → {}", c.text, cls));
+            continue;
+        }
         if c.group == "excluded-recursion-probe" {
             let cls = match o {
                 Outcome::Hang => "hang".to_string(),
